@@ -600,8 +600,365 @@ fn batch_set(cfg: &Cfg, rng: &mut Rng, rep: &mut Report) {
     }
 }
 
+// ---------------------------------------------------------------------------------------------
+// call histories of the checked variant on one buffer (stream 4)
+//
+// `interp1d_linear` is a free function of (x, y, targets, mode): what the thread has interpolated before,
+// and in particular whether THIS buffer held a valid table at the previous call, is not part of the
+// quantifier. Callers keep one Vec of abscissae alive and edit it in place — a moving mesh (fixed end
+// points and node count, interior nodes updated every step), one Vec cleared and refilled per data set
+// (`clear` + `extend` within the capacity: same address), abscissae normalised to [0, 1] so that every table
+// starts at 0 and ends at 1 — and rely on the checked variant to catch a tangled or unsorted grid at EVERY
+// call. One case = one buffer pair (x, y) with spare capacity, a first strictly increasing table, then
+// 3..7 edits of the SAME buffer, the checked variant called after every edit on one thread:
+//   swap-interior          two interior knots exchanged (adjacent or far apart), end points kept
+//   reverse-interior-run   an interior run x[a..=b] reversed
+//   duplicate-knot         x[j] overwritten with x[k], k >= j+2 (a strict descent follows the copy)
+//   tangle-one-node        one interior node moved beyond its right neighbour (still inside the range)
+//   nudge-interior         every interior node moved between its neighbours (still strictly increasing)
+//   restore-sorted         the last strictly increasing table written back
+//   refill-sorted-same-ends / refill-unsorted-same-ends
+//                          clear + extend: same length and end points, new interior knots
+//   refill-other-length    clear + extend: another table of another length within the capacity, sorted or not
+//   change-end-point       first or last abscissa moved outwards / an end point moved inside (unsorted)
+//   y-truncated            y one shorter than x (length mismatch) on a buffer that was just accepted
+// Oracle: the state of the buffer decides, nothing else. Strictly increasing: the call must return, every
+// value satisfies the single-call oracle (`judge`) and equals bit for bit the value of the same call made as
+// the first library call of a fresh thread on a fresh copy of the table. A strict descent: the call must
+// panic (`C16.checked.rejects_unsorted|history:<edit>`), mismatched lengths likewise. Edits that leave ties
+// but no descent are not generated (ties are neither required to be accepted nor rejected).
+
+const EDITS: [&str; 11] = [
+    "swap-interior", "reverse-interior-run", "duplicate-knot", "tangle-one-node", "nudge-interior", "restore-sorted",
+    "refill-sorted-same-ends", "refill-unsorted-same-ends", "refill-other-length", "change-end-point", "y-truncated",
+];
+
+#[derive(Clone, Copy, PartialEq, Debug)]
+enum Order {
+    Increasing,
+    Descent,
+    TiesOnly,
+}
+
+fn order_of(x: &[f64]) -> Order {
+    if x.windows(2).any(|w| w[1] < w[0]) {
+        Order::Descent
+    } else if x.windows(2).all(|w| w[1] > w[0]) {
+        Order::Increasing
+    } else {
+        Order::TiesOnly
+    }
+}
+
+/// n - 2 strictly increasing values strictly between lo and hi (None if the interval is too narrow)
+fn interior_between(rng: &mut Rng, lo: f64, hi: f64, n: usize) -> Option<Vec<f64>> {
+    for _ in 0..8 {
+        let mut v: Vec<f64> = (0..n.saturating_sub(2)).map(|_| lo + (hi - lo) * rng.f64()).filter(|&t| t > lo && t < hi).collect();
+        v.sort_by(|a, b| a.partial_cmp(b).unwrap());
+        v.dedup();
+        if v.len() == n - 2 {
+            return Some(v);
+        }
+    }
+    None
+}
+
+fn ordinates(rng: &mut Rng, n: usize) -> Vec<f64> {
+    match rng.usize(0, 2) {
+        0 => {
+            let s = 10f64.powf(rng.range(-2.0, 2.0));
+            (0..n).map(|_| rng.normal() * s).collect()
+        }
+        1 => rng.ints(n, -1000, 1000),
+        _ => {
+            let off = rng.normal() * 1e6;
+            (0..n).map(|_| off + rng.normal()).collect()
+        }
+    }
+}
+
+/// Apply one edit to the buffers in place. Returns false if the edit is not applicable to the current
+/// table (too few knots, interval too narrow).
+fn apply_edit(rng: &mut Rng, edit: &str, x: &mut Vec<f64>, y: &mut Vec<f64>, last_sorted: &(Vec<f64>, Vec<f64>), cap: usize) -> bool {
+    let n = x.len();
+    match edit {
+        "swap-interior" => {
+            if n < 4 {
+                return false;
+            }
+            let a = rng.usize(1, n - 3);
+            let b = if rng.bool() { a + 1 } else { rng.usize(a + 1, n - 2) };
+            x.swap(a, b);
+        }
+        "reverse-interior-run" => {
+            if n < 4 {
+                return false;
+            }
+            let a = rng.usize(1, n - 3);
+            let b = rng.usize(a + 1, n - 2);
+            x[a..=b].reverse();
+        }
+        "duplicate-knot" => {
+            if n < 5 {
+                return false;
+            }
+            let j = rng.usize(1, n - 4);
+            let k = rng.usize(j + 2, n - 2);
+            x[j] = x[k];
+        }
+        "tangle-one-node" => {
+            if n < 4 {
+                return false;
+            }
+            let j = rng.usize(1, n - 3);
+            // beyond the right neighbour, inside the range
+            let (a, b) = (x[j + 1], x[n - 1]);
+            let t = a + (b - a) * rng.range(0.05, 0.95);
+            if !(t > a && t < b) {
+                return false;
+            }
+            x[j] = t;
+        }
+        "nudge-interior" => {
+            if n < 3 || order_of(x) != Order::Increasing {
+                return false;
+            }
+            for j in 1..n - 1 {
+                let (a, b) = (x[j - 1], x[j + 1]);
+                let t = a + (b - a) * rng.range(0.1, 0.9);
+                if t > a && t < b {
+                    x[j] = t;
+                }
+            }
+        }
+        "restore-sorted" => {
+            x.clear();
+            x.extend_from_slice(&last_sorted.0);
+            y.clear();
+            y.extend_from_slice(&last_sorted.1);
+        }
+        "refill-sorted-same-ends" | "refill-unsorted-same-ends" => {
+            if n < 4 || !(x[0] < x[n - 1]) {
+                return false;
+            }
+            let (lo, hi) = (x[0], x[n - 1]);
+            let inner = match interior_between(rng, lo, hi, n) {
+                Some(v) => v,
+                None => return false,
+            };
+            x.clear();
+            x.push(lo);
+            x.extend_from_slice(&inner);
+            x.push(hi);
+            if edit == "refill-unsorted-same-ends" {
+                let a = rng.usize(1, n - 3);
+                let b = rng.usize(a + 1, n - 2);
+                x.swap(a, b);
+            }
+            let ny = ordinates(rng, n);
+            y.clear();
+            y.extend_from_slice(&ny);
+        }
+        "refill-other-length" => {
+            let mut m = rng.usize(2, cap);
+            if m == n {
+                m = if n < cap { n + 1 } else { n - 1 };
+            }
+            if m < 2 {
+                return false;
+            }
+            let keep_ends = rng.bool() && x[0] < x[n - 1];
+            let (lo, hi) = if keep_ends { (x[0], x[n - 1]) } else { (rng.range(-50.0, 0.0), rng.range(1.0, 50.0)) };
+            let inner = match interior_between(rng, lo, hi, m) {
+                Some(v) => v,
+                None => return false,
+            };
+            x.clear();
+            x.push(lo);
+            x.extend_from_slice(&inner);
+            x.push(hi);
+            if m >= 4 && rng.chance(0.4) {
+                let a = rng.usize(1, m - 3);
+                let b = rng.usize(a + 1, m - 2);
+                x.swap(a, b);
+            }
+            let ny = ordinates(rng, m);
+            y.clear();
+            y.extend_from_slice(&ny);
+        }
+        "change-end-point" => {
+            if n < 3 {
+                return false;
+            }
+            let range = (x[n - 1] - x[0]).abs().max(1e-3);
+            match rng.usize(0, 3) {
+                0 => x[0] -= range * rng.range(0.1, 2.0),
+                1 => x[n - 1] += range * rng.range(0.1, 2.0),
+                // an end point moved inside the table
+                2 => x[0] = x[n - 1] - (x[n - 1] - x[1]) * rng.range(0.0, 0.9),
+                _ => x[n - 1] = x[0] + (x[n - 2] - x[0]) * rng.range(0.0, 0.9),
+            }
+        }
+        _ => {
+            // "y-truncated"
+            if n < 3 {
+                return false;
+            }
+            y.pop();
+        }
+    }
+    true
+}
+
+fn history_case(cfg: &Cfg, i: usize, rng: &mut Rng, rep: &mut Report) {
+    let few = cfg.miri();
+    // first table: the knot generator of the main workload, at least 6 knots
+    let mut k = gen_knots(rng, false);
+    for _ in 0..40 {
+        if k.x.len() >= 6 && (!few || k.x.len() <= 12) {
+            break;
+        }
+        k = gen_knots(rng, false);
+    }
+    if k.x.len() < 6 || (few && k.x.len() > 12) {
+        let n = rng.usize(6, 12);
+        k.x = (0..n).map(|j| j as f64 + rng.range(0.0, 0.5)).collect();
+        k.y = ordinates(rng, n);
+    }
+    // normalised abscissae now and then: every table starts at 0 and ends at 1
+    if rng.chance(0.3) {
+        let (a, b) = (k.x[0], k.x[k.x.len() - 1]);
+        let nx: Vec<f64> = k.x.iter().map(|v| (v - a) / (b - a)).collect();
+        if order_of(&nx) == Order::Increasing && nx[0] == 0.0 && nx[nx.len() - 1] == 1.0 {
+            k.x = nx;
+        }
+    }
+    let n0 = k.x.len();
+    let cap = n0 + 8;
+    let mut x: Vec<f64> = Vec::with_capacity(cap);
+    let mut y: Vec<f64> = Vec::with_capacity(cap);
+    x.extend_from_slice(&k.x);
+    y.extend_from_slice(&k.y);
+    let (px, py) = (x.as_ptr() as usize, y.as_ptr() as usize);
+    let mut last_sorted = (k.x.clone(), k.y.clone());
+    let fills = Mode::Fill(rng.normal() * 1e3 + 12345.0, rng.normal() * 1e3 - 54321.0);
+    let steps = if few { 3 } else { rng.usize(3, 7) };
+    let mut log: Vec<Value> = Vec::new();
+    let mut prev_accepted: Option<bool> = None;
+    // the edit of step s (s = 0: the first table); the first edit of case i is EDITS[i mod 11] so that every
+    // edit meets a buffer that was just accepted
+    for s in 0..=steps {
+        let mut edit: &'static str = "first-table";
+        if s > 0 {
+            let mut done = false;
+            for attempt in 0..12 {
+                let e = if s == 1 && attempt == 0 { EDITS[i % EDITS.len()] } else { *rng.choose(&EDITS) };
+                // a truncated y is repaired first: the next edit starts from the last sorted table
+                if y.len() != x.len() {
+                    apply_edit(rng, "restore-sorted", &mut x, &mut y, &last_sorted, cap);
+                }
+                let (bx, by) = (x.clone(), y.clone());
+                if apply_edit(rng, e, &mut x, &mut y, &last_sorted, cap) && (order_of(&x) != Order::TiesOnly) && (e == "y-truncated" || bx != x || by != y || e == "restore-sorted") {
+                    edit = e;
+                    done = true;
+                    break;
+                }
+                // not applicable, or it left ties without a descent: undo in place
+                x.clear();
+                x.extend_from_slice(&bx);
+                y.clear();
+                y.extend_from_slice(&by);
+            }
+            if !done {
+                break;
+            }
+        }
+        let same_address = x.as_ptr() as usize == px && y.as_ptr() as usize == py;
+        let n = x.len();
+        let ord = order_of(&x);
+        let mismatch = y.len() != n;
+        // targets: knots, interior points, both outsides (inside the end points' span whatever the order)
+        let (lo, hi) = (x[0].min(x[n - 1]), x[0].max(x[n - 1]));
+        let mut ts: Vec<f64> = Vec::new();
+        for j in pick_idx(rng, n, if few { 1 } else { 3 }) {
+            ts.push(x[j]);
+        }
+        for _ in 0..(if few { 2 } else { 5 }) {
+            ts.push((lo + (hi - lo) * rng.f64()).clamp(lo, hi));
+        }
+        let m = match rng.usize(0, 2) {
+            0 => Mode::Panic,
+            1 => fills,
+            _ => Mode::Extrapolate,
+        };
+        if m != Mode::Panic {
+            ts.push(lo - (hi - lo) * rng.range(0.01, 1.0));
+            ts.push(hi + (hi - lo) * rng.range(0.01, 1.0));
+        }
+        rng.shuffle(&mut ts);
+        let regime = format!("checked:history:{}", edit);
+        rep.case(&regime);
+        rep.seen(if same_address { "history:same-address" } else { "history:buffer-moved" }, 1);
+        if let Some(a) = prev_accepted {
+            rep.seen(if a { "history:after-accepted-call" } else { "history:after-rejected-call" }, 1);
+            if s > 0 && a && same_address && ord == Order::Descent && !mismatch && n == last_sorted.0.len() && x[0].to_bits() == last_sorted.0[0].to_bits() && x[n - 1].to_bits() == last_sorted.0[n - 1].to_bits() {
+                rep.seen("history:descent-with-same-address-length-end-points-after-accepted", 1);
+            }
+            if s > 0 && a && same_address && ord == Order::Increasing && !mismatch && n == last_sorted.0.len() && x[0].to_bits() == last_sorted.0[0].to_bits() && x[n - 1].to_bits() == last_sorted.0[n - 1].to_bits() && x != last_sorted.0 {
+                rep.seen("history:new-interior-with-same-address-length-end-points-after-accepted", 1);
+            }
+        }
+        rep.distinct(Hasher::new().s("history").s(edit).u(s as u64).fs(&x).fs(&y).finish(), n >= 3);
+        // the call under test: the checked variant on the edited buffer, on this thread
+        let got = call(true, &x, &y, &ts, m);
+        log.push(json!({"step": s, "edit": edit, "x": jf(&x), "y_len": y.len(), "order": format!("{:?}", ord), "outcome": if got.is_ok() { "returned" } else { "panicked" }}));
+        let hist = Value::Array(log.clone());
+        let ctx = |extra: Value| json!({"variant": "checked", "mode": m.js(), "x": jf(&x), "y": jf(&y), "n": n, "targets": jf(&ts), "same_buffer_as_previous_calls": same_address, "calls_on_this_buffer_so_far": hist, "detail": extra});
+        let hreg = format!("history:{}", edit);
+        if mismatch {
+            rep.check("C16.checked.rejects_mismatch", &hreg, got.is_err(), || ctx(json!({"x_len": n, "y_len": y.len(), "observed": got.as_ref().map(|v| jf(v)).unwrap_or(json!("panic")), "expected": "panic"})));
+        } else if ord == Order::Descent {
+            let at = x.windows(2).position(|w| w[1] < w[0]).unwrap();
+            rep.check("C16.checked.rejects_unsorted", &hreg, got.is_err(), || ctx(json!({"descending_pair_at": at, "pair": [x[at], x[at + 1]], "observed": got.as_ref().map(|v| jf(v)).unwrap_or(json!("panic")), "expected": "panic"})));
+        } else {
+            // strictly increasing: the same call as the first library call of a fresh thread, on a fresh copy
+            let (fx, fy, ft) = (x.clone(), y.clone(), ts.clone());
+            let fresh: Option<Result<Vec<f64>, String>> = std::thread::scope(|sc| sc.spawn(|| call(true, &fx, &fy, &ft, m)).join().ok());
+            let fresh = match fresh {
+                Some(f) => f,
+                None => {
+                    rep.inconclusive("C16: harness thread of a fresh-thread twin died".to_string());
+                    return;
+                }
+            };
+            let same = match (&got, &fresh) {
+                (Ok(a), Ok(b)) => a.len() == b.len() && a.iter().zip(b).all(|(p, q)| same_bits(*p, *q)),
+                (Err(_), Err(_)) => true,
+                _ => false,
+            };
+            rep.check("C16.history.same_as_fresh_thread", &hreg, same, || ctx(json!({"on_the_edited_buffer": got.as_ref().map(|v| jf(v)).unwrap_or_else(|e| json!({"panic": e})), "fresh_thread_fresh_copy": fresh.as_ref().map(|v| jf(v)).unwrap_or_else(|e| json!({"panic": e}))})));
+            match &got {
+                Err(msg) => {
+                    // with Panic mode all targets are in range, with the other modes nothing may panic
+                    rep.check("C16.in_range.no_panic", &regime, false, || ctx(json!({"panic": msg})));
+                }
+                Ok(v) => {
+                    rep.check("C16.in_range.no_panic", &regime, true, || json!(null));
+                    if rep.check("C16.output_len", &regime, v.len() == ts.len(), || ctx(json!({"targets": ts.len(), "returned": v.len()}))) {
+                        for (j, &t) in ts.iter().enumerate() {
+                            judge(rep, &regime, &x, &y, m, t, v[j], &ctx);
+                        }
+                    }
+                }
+            }
+            last_sorted = (x.clone(), y.clone());
+        }
+        prev_accepted = Some(got.is_ok());
+    }
+}
+
 pub fn run(cfg: &Cfg, rep: &mut Report) {
-    rep.rule = "random knot sets: n in 2..200, strictly increasing abscissae (uniform / spacing ratios <= 1e2 / <= 1e6, scale 1e-3..1e3), ordinates gaussian / |y| in 1e-150..1e150 / flat runs with zeros / integers / offset 1e6; per set: in-range targets (knots incl. first and last, midpoints, knot+-1ulp, random interior) x 3 modes x 2 variants, then per side 4 out-of-range targets (1 ulp, fraction of range, 1x, 10x range) x 3 modes x 2 variants, then one unsorted and one length-mismatched call of the checked variant. one evaluation = one library call. non-trivial = n >= 3 and ordinates not all equal; distinct by bits of (x, y); batch family: per knot set a master list of targets (knots, random interior, knot+-1ulp, a coarse regular grid, both outsides) evaluated one per call and then in one call in six orders (shuffled, out-of-range alternating with in-range, ascending dense, ascending sparse, coarse grid, descending) x 3 modes x 2 variants (Panic mode with in-range targets only): every value must satisfy the oracle and equal the one-per-call value bit for bit".into();
+    rep.rule = "random knot sets: n in 2..200, strictly increasing abscissae (uniform / spacing ratios <= 1e2 / <= 1e6, scale 1e-3..1e3), ordinates gaussian / |y| in 1e-150..1e150 / flat runs with zeros / integers / offset 1e6; per set: in-range targets (knots incl. first and last, midpoints, knot+-1ulp, random interior) x 3 modes x 2 variants, then per side 4 out-of-range targets (1 ulp, fraction of range, 1x, 10x range) x 3 modes x 2 variants, then one unsorted and one length-mismatched call of the checked variant. one evaluation = one library call. non-trivial = n >= 3 and ordinates not all equal; distinct by bits of (x, y); batch family: per knot set a master list of targets (knots, random interior, knot+-1ulp, a coarse regular grid, both outsides) evaluated one per call and then in one call in six orders (shuffled, out-of-range alternating with in-range, ascending dense, ascending sparse, coarse grid, descending) x 3 modes x 2 variants (Panic mode with in-range targets only): every value must satisfy the oracle and equal the one-per-call value bit for bit; history family: one (x, y) buffer pair with spare capacity, a first strictly increasing table (>= 6 knots, 30 % normalised to [0, 1]), then 3..7 in-place edits (the first one = case index mod 11 of swap-interior, reverse-interior-run, duplicate-knot, tangle-one-node, nudge-interior, restore-sorted, refill-sorted-same-ends, refill-unsorted-same-ends, refill-other-length, change-end-point, y-truncated; the others random), the checked variant called after every edit on the same thread with knot / interior / outside targets in a random mode: descent or length mismatch must panic, a strictly increasing table must give the oracle's values and the bits of a first call on a fresh thread".into();
     rep.assume("abscissae strictly increasing and finite, ordinates finite with |y| <= 1e150 (chords cannot overflow); ties in the abscissae are neither required to be accepted nor rejected");
     rep.assume("a knot ordinate of -0.0 may be returned as +0.0 (numerically equal)");
     rep.assume("fill values may be any f64 incl. inf/NaN and are compared bitwise (all NaNs identified)");
@@ -635,6 +992,21 @@ pub fn run(cfg: &Cfg, rep: &mut Report) {
     // multi-target calls against one-target-per-call results and the oracle
     let nb = cfg.pick(500, 8000, 1);
     par_cases(cfg, rep, 3, nb, |_i, rng, rep| batch_set(cfg, rng, rep));
+    // call histories of the checked variant on one buffer edited in place (stream 4)
+    rep.assume("what a thread has interpolated before, and what the buffer held at the previous call, is outside the quantifier: after every in-place edit of one (x, y) buffer pair the checked variant must reject a strict descent or a length mismatch and must, on a strictly increasing table, return the values a first call on a fresh thread returns for a fresh copy, bit for bit; edits that leave ties without a descent are not generated");
+    let nh = cfg.pick(440, 8800, 2);
+    par_cases(cfg, rep, 4, nh, |i, rng, rep| history_case(cfg, i, rng, rep));
+    rep.require("checked:history:first-table", 1);
+    rep.require("history:same-address", 1);
+    rep.require("history:after-accepted-call", 1);
+    if !cfg.lite {
+        for e in EDITS {
+            rep.require(&format!("checked:history:{}", e), 1);
+        }
+        rep.require("history:after-rejected-call", 1);
+        rep.require("history:descent-with-same-address-length-end-points-after-accepted", 1);
+        rep.require("history:new-interior-with-same-address-length-end-points-after-accepted", 1);
+    }
     for v in ["checked", "unchecked"] {
         for m in ["panic", "fill", "extrapolate"] {
             rep.require(&format!("{}:{}:batch:single", v, m), 1);
